@@ -141,7 +141,11 @@ fn section_header_with_name<'sc>(
             // This can't be a match.
             continue;
         }
-        let n = module_memory.read(strtab_section_header.sh_offset + sh_name, name.len() as u64)?;
+        let Some(name_offset) = strtab_section_header.sh_offset.checked_add(sh_name) else {
+            log::warn!("section name offset overflows for {:?}", name);
+            continue;
+        };
+        let n = module_memory.read(name_offset, name.len() as u64)?;
         if name == &*n {
             return Ok(Some(header));
         }
